@@ -320,6 +320,11 @@ func c08Body(rng *rand.Rand) *c08Val {
 	if rng.Intn(4) != 0 {
 		add("b", c08Scalar(rng))
 	}
+	if rng.Intn(3) == 0 {
+		// coordinates for the geo-distance leg `@geo` (both or neither; always the point (1.0, 2.0))
+		add("gla", &c08Val{kind: "f", i: 4})
+		add("glo", &c08Val{kind: "f", i: 8})
+	}
 	if rng.Intn(3) != 0 {
 		n := rng.Intn(4)
 		l := &c08Val{kind: "a"}
@@ -579,6 +584,10 @@ func c08Group(rng *rand.Rand, depth int, labelP, special int, seed *c08Val) stri
 		}
 		items = append(items, c08Leaf(rng, idx, labelP, special, seed))
 	}
+	if rng.Intn(6) == 0 {
+		// a leg of another kind (geo distance): never hinted, carried in the residual's header
+		items = append(items, "@geo")
+	}
 	if depth > 0 && rng.Intn(3) == 0 {
 		items = append(items, c08Group(rng, depth-1, labelP, special, seed))
 		if rng.Intn(4) == 0 {
@@ -640,11 +649,13 @@ func c08Gen(rng *rand.Rand, tier string, w *bufio.Writer) {
 	fixed("k3", 3, 0, 0, "{a:i2}", mk("a", I(2)))
 	fmt.Fprintln(w, "q key asc 1 0 - - 0 &(a~eq~i64:2~)")
 	fmt.Fprintln(w, "q key asc 0 1 - - 0 &(a~eq~i64:2~)")
+	fmt.Fprintln(w, "q key asc 1 0 - - 0 &(a~eq~i64:2~) m")
 	// corpus 3: the label of the indexed leg
 	fmt.Fprintln(w, "case 3")
 	fixed("k1", 1, 0, 0, "{a:i1,b:'a'}", mk("a", I(1), "b", S("a")))
 	fmt.Fprintln(w, "q key asc 0 0 - - 0 &(a~eq~i64:1~L1,b~eq~s:a~L2)")
 	fmt.Fprintln(w, "q key asc 0 0 - - 0 |(a~eq~i64:1~L1,b~eq~s:a~L2)")
+	fmt.Fprintln(w, "q key asc 0 0 - - 0 &(a~eq~i64:1~L1,b~eq~s:a~L2) m")
 	// corpus 4: a record without CreatedAt in a creation-time ordered query
 	fmt.Fprintln(w, "case 4")
 	fixed("k1", 0, 0, 0, "{a:i1}", mk("a", I(1)))
@@ -670,6 +681,17 @@ func c08Gen(rng *rand.Rand, tier string, w *bufio.Writer) {
 	fmt.Fprintln(w, "del k1")
 	fmt.Fprintln(w, "q key desc 0 0 - - 0 &(a~eq~i64:1~,b~ne~s:b~)")
 	fmt.Fprintln(w, "q created desc 0 0 2 9 2 |(a~eq~f64:4~,b~sin~s:a;b~)")
+	fmt.Fprintln(w, "q created desc 0 0 2 9 2 |(a~eq~f64:4~,b~sin~s:a;b~) m")
+	fmt.Fprintln(w, "q created asc 0 0 - 4 0 &(a~eq~i64:1~) m")
+	// corpus 5g: a geo-distance leg next to an indexed leg: it has to survive into the residual
+	fmt.Fprintln(w, "case 5g")
+	fixed("k1", 1, 0, 0, "{a:i1,gla:f4,glo:f8}", mk("a", I(1), "gla", Fq(4), "glo", Fq(8)))
+	fixed("k2", 2, 0, 0, "{a:i1}", mk("a", I(1)))
+	fixed("k3", 3, 0, 0, "{a:i2,gla:f4,glo:f8}", mk("a", I(2), "gla", Fq(4), "glo", Fq(8)))
+	fmt.Fprintln(w, "q key asc 0 0 - - 0 &(a~eq~i64:1~,@geo)")
+	fmt.Fprintln(w, "q key asc 0 0 - - 0 &(a~eq~i64:1~,@geo) m")
+	fmt.Fprintln(w, "q key asc 0 0 - - 0 |(a~eq~i64:2~,@geo)")
+	fmt.Fprintln(w, "q key desc 0 0 - - 0 &(|(a~eq~i64:1~,a~eq~i64:2~),@geo)")
 
 	// corpus 5h: a first query is held inside GetOrBuildBucket after BuildEquality, before DrainPending
 	// (forced schedule through the hook): saves and a delete arrive meanwhile, a second reader comes
@@ -792,6 +814,10 @@ func c08Gen(rng *rand.Rand, tier string, w *bufio.Writer) {
 						tt = strconv.Itoa(2 + rng.Intn(8))
 					}
 				}
+				if idx != "key" && rng.Intn(10) == 0 {
+					// bounds int64 nanoseconds cannot hold (years 0001 / 9999): both routes must treat them alike
+					ft, tt = []string{"-", "-62135596800", "253402300799"}[rng.Intn(3)], []string{"253402300799", "-62135596800", "-"}[rng.Intn(3)]
+				}
 				max := 0
 				if rng.Intn(6) == 0 {
 					max = 1 + rng.Intn(3)
@@ -805,7 +831,8 @@ func c08Gen(rng *rand.Rand, tier string, w *bufio.Writer) {
 					sort.Ints(ks)
 					seed = bodies[ks[rng.Intn(len(ks))]]
 				}
-				fmt.Fprintf(w, "q %s %s %d %d %s %s %d %s\n", idx, ord, from, limit, ft, tt, max, c08Group(rng, 2, labelP, special, seed))
+				fmt.Fprintf(w, "q %s %s %d %d %s %s %d %s%s\n", idx, ord, from, limit, ft, tt, max, c08Group(rng, 2, labelP, special, seed),
+					[]string{"", "", " m"}[rng.Intn(3)])
 			}
 		}
 		if held > 0 {
@@ -856,6 +883,12 @@ func c08ParseGroup(s string) (*hydrapb.FilterGroup, bool) {
 				return nil, false
 			}
 			g.SubGroups = append(g.SubGroups, sub)
+			continue
+		}
+		if it == "@geo" {
+			// within 1 km of (1.0, 2.0): true exactly for the bodies that carry the coordinates gla / glo
+			g.GeoDistanceFilters = append(g.GeoDistanceFilters, &hydrapb.GeoDistanceFilter{LatFieldPath: "gla", LngFieldPath: "glo",
+				RefLatitude: 1.0, RefLongitude: 2.0, RadiusKm: 1, Mode: hydrapb.GeoDistanceMode_INSIDE})
 			continue
 		}
 		f, ok := c08ParseLeaf(it)
@@ -993,6 +1026,18 @@ func (s *c08Stream) Send(r *hydrapb.GetByIndexStreamResponse) error {
 	s.out = append(s.out, item)
 	return nil
 }
+// the same items from GetByIndexStreamFromMany
+type c08ManyStream struct{ c08Stream }
+
+func (s *c08ManyStream) Send(r *hydrapb.GetByIndexStreamFromManyResponse) error {
+	item := r.GetTreasure().GetKey()
+	if m := r.GetMeta(); m != nil && len(m.GetMatchedLabels()) > 0 {
+		item += "[" + strings.Join(m.GetMatchedLabels(), "+") + "]"
+	}
+	s.out = append(s.out, item)
+	return nil
+}
+
 func (s *c08Stream) SetHeader(metadata.MD) error  { return nil }
 func (s *c08Stream) SendHeader(metadata.MD) error { return nil }
 func (s *c08Stream) SetTrailer(metadata.MD)       {}
@@ -1187,7 +1232,9 @@ func c08Run(in *bufio.Scanner, w *bufio.Writer) {
 					return "nilnil"
 				}
 				return "ok"
-			case f[0] == "q" && len(f) == 9:
+			case f[0] == "q" && (len(f) == 9 || (len(f) == 10 && f[9] == "m")):
+				// a tenth token `m`: both routes through GetByIndexStreamFromMany (one query) — its own copy of the route logic
+				many := len(f) == 10
 				it, ok := c07IndexType(f[1])
 				from, e1 := strconv.ParseInt(f[3], 10, 32)
 				limit, e2 := strconv.ParseInt(f[4], 10, 32)
@@ -1210,6 +1257,16 @@ func c08Run(in *bufio.Scanner, w *bufio.Writer) {
 					ord = hydrapb.OrderType_DESC
 				}
 				runQ := func(fg *hydrapb.FilterGroup) string {
+					if many {
+						st := &c08ManyStream{c08Stream{ctx: ctx}}
+						err := rig.GW.GetByIndexStreamFromMany(&hydrapb.GetByIndexStreamFromManyRequest{Queries: []*hydrapb.SwampQuery{{
+							IslandID: 1, SwampName: swampName, IndexType: it, OrderType: ord, From: int32(from), Limit: int32(limit),
+							FromTime: ft, ToTime: tt, MaxResults: int32(max), Filters: fg}}}, st)
+						if err != nil {
+							return "err:" + c07ErrClass(err)
+						}
+						return strings.Join(st.out, ",")
+					}
 					st := &c08Stream{ctx: ctx}
 					err := rig.GW.GetByIndexStream(&hydrapb.GetByIndexStreamRequest{IslandID: 1, SwampName: swampName,
 						IndexType: it, OrderType: ord, From: int32(from), Limit: int32(limit), FromTime: ft, ToTime: tt,
@@ -1223,7 +1280,7 @@ func c08Run(in *bufio.Scanner, w *bufio.Writer) {
 				// query from several goroutines at once — every one of them must see what a lone
 				// caller sees (GetOrBuildBucket's concurrent-first-caller contract).
 				concDiff := ""
-				if g != nil && c08NewPath(seenPaths, f[8]) && from == 0 && limit == 0 {
+				if g != nil && c08NewPath(seenPaths, f[8]) && from == 0 && limit == 0 && max == 0 { // (a cut through equal sort values is anybody's choice)
 					// build the ordered index first, alone: buildBeacon itself is not safe for concurrent
 					// first readers (a second reader sees `initialized` before the slice is filled), which
 					// is not this property's subject
